@@ -27,6 +27,8 @@ OrderOk(m, delivered) == delivered + 1 >= m
 MayPreempt(dist, block) == dist <= 2 * block
 \* (3) after the consumer abandons the iteration: the loader was disposed and nothing is read any more
 Released(disposals, readsAfter) == disposals >= 1 /\ readsAfter = 0
+\* ... of every loader that was built: an iterator dropped before its first item was asked for may not have built one
+ReleasedAll(built, disposals, readsAfter) == readsAfter = 0 /\ (built > 0 => disposals >= 1)
 \* (3) "releases the loader": what still refers to / survives of the loader once the generator has been dropped, with the
 \* cyclic garbage collector out of the picture (a loader kept alive by a reference cycle with its stream and buffers is
 \* not released, it is merely collectable some day): nothing
